@@ -195,6 +195,12 @@ func readValue(data []byte, offset, typID, length int) (interface{}, int) {
 		if val == nil {
 			return nil, max(consumed, 1)
 		}
+		if len(val) == 0 {
+			// an empty varlena ('' of a text-like type) is a value, not NULL; DecodeType maps empty input to nil
+			if v := emptyVarlena(typID); v != nil {
+				return v, consumed
+			}
+		}
 		return DecodeType(val, typID), consumed
 	}
 
@@ -205,6 +211,24 @@ func readValue(data []byte, offset, typID, length int) (interface{}, int) {
 		}
 	}
 	return string(remaining), len(remaining)
+}
+
+// emptyVarlena is the decoded form of a zero-length varlena payload: the empty string for the types
+// decodeScalar renders as text (incl. type oids it does not know), "\\x" for bytea, nil for types whose
+// values cannot be empty
+func emptyVarlena(typID int) interface{} {
+	switch typID {
+	case OidBytea:
+		return "\\x"
+	case OidText, OidVarchar, OidBpchar, OidXML:
+		return ""
+	}
+	_, named := typeNames[typID]
+	_, isArray := arrayElemTypes[typID]
+	if !named && !isArray {
+		return ""
+	}
+	return nil
 }
 
 // isShortVarlena checks if data starts with a short varlena header
